@@ -8,12 +8,17 @@ use ::core::hash::Hasher;
 impl HuffmanTable {
     fn verif_hash<H: Hasher>(&self, h: &mut H) {
         let HuffmanTable { look_up, tree } = self;
-        for v in look_up.iter() {
-            h.write_i16(*v);
+        // four entries per 64-bit word (both lengths are multiples of four)
+        assert!(look_up.len() % 4 == 0 && tree.len() % 4 == 0);
+        for c in look_up.chunks_exact(4).chain(tree.chunks_exact(4)) {
+            h.write_u64(
+                (c[0] as u16 as u64)
+                    | ((c[1] as u16 as u64) << 16)
+                    | ((c[2] as u16 as u64) << 32)
+                    | ((c[3] as u16 as u64) << 48),
+            );
         }
-        for v in tree.iter() {
-            h.write_i16(*v);
-        }
+        h.write_usize(look_up.len() + tree.len());
     }
 }
 
